@@ -34,9 +34,23 @@ static inline uint64_t mix64(uint64_t z)
     return z ^ (z >> 31);
 }
 
+/* schedule log (meaningful on 1 shepherd x 1 worker only: tasks switch only at schedule points):
+ * one entry per ARRIVAL of a task at a schedule point, in execution order */
+#define MAXLOG (1 << 16)
+static volatile int      cur_t = -1;
+static unsigned char     splog_t[MAXLOG], splog_k[MAXLOG];
+static volatile uint64_t splog_n = 0;
+static inline void sp_log(int t, int kind)
+{
+    uint64_t i = __sync_fetch_and_add(&splog_n, 1);
+    if (i < MAXLOG) { splog_t[i] = (unsigned char)t; splog_k[i] = (unsigned char)kind; }
+}
+
 static void c16_sp(int kind)
 {
     if (!sp_on) { return; }
+    int me = cur_t;
+    sp_log(me, kind);
     uint64_t c = __sync_fetch_and_add(&sp_ctr, 1);
     uint64_t r = mix64(sp_seed + c * 0x100000001B3ULL);
     if ((int)(r & 255) < sp_prob) {
@@ -47,6 +61,7 @@ static void c16_sp(int kind)
             for (volatile unsigned i = 0; i < ((r >> 12) & 1023); i++) ;
         } else {
             qthread_yield();
+            cur_t = me;
         }
     }
 }
@@ -156,6 +171,7 @@ static aligned_t task_body(void *arg)
 {
     int t = (int)(intptr_t)arg;
     while (!go) { qthread_yield(); }
+    cur_t = t;
     for (int i = 0; i < ntops[t]; i++) {
         cop_t *o = &tops[t][i];
         void  *r = NULL;
@@ -169,6 +185,7 @@ static aligned_t task_body(void *arg)
         o->ret = (unsigned long)(uintptr_t)r;
         o->res = __sync_fetch_and_add(&stamp, 1);
     }
+    sp_log(t, 9);
     return 0;
 }
 
@@ -239,7 +256,7 @@ int main(void)
         } else if (line[0] == 'G') {       /* G prob spin seed : run the op lists concurrently */
             unsigned long long sd; int nt = 0;
             sscanf(line + 1, "%d %d %llu", &sp_prob, &sp_spin, &sd);
-            sp_seed = sd; sp_ctr = 0; sp_taken = 0; stamp = 0; go = 0;
+            sp_seed = sd; sp_ctr = 0; sp_taken = 0; stamp = 0; go = 0; splog_n = 0; cur_t = -1;
             alarm(60);
             for (int t = 0; t < MAXT; t++) if (ntops[t]) { nt = t + 1; }
             for (int t = 0; t < nt; t++) { qthread_fork(task_body, (void *)(intptr_t)t, &trets[t]); }
@@ -251,6 +268,11 @@ int main(void)
                     cop_t *o = &tops[t][i];
                     printf("E %d %d %c %lu %lu %lu %llu %llu\n", t, i, o->op, o->k, o->v, o->ret, (unsigned long long)o->inv, (unsigned long long)o->res);
                 }
+            }
+            if (!sp_spin) {
+                printf("S");
+                for (uint64_t i = 0; i < splog_n && i < MAXLOG; i++) { printf(" %d:%d", (int)splog_t[i], (int)splog_k[i]); }
+                printf("\n");
             }
             printf("G %llu %llu\n", (unsigned long long)sp_ctr, (unsigned long long)sp_taken);
         } else if (line[0] == 'Q') {
